@@ -470,6 +470,14 @@ func init() {
 		trials, bad := 0, 0
 		for t := 0; t < n; t++ {
 			fen := fens[r.intn(len(fens))]
+			if r.chance(1, 3) {
+				// every field of the position counts, the ply counter too: move numbers beyond the killer table and near the cap
+				f := strings.Fields(fen)
+				if len(f) == 6 {
+					f[5] = []string{"176", "177", "200", "351", "1000", "5000", "15933"}[r.intn(7)]
+					fen = strings.Join(f, " ")
+				}
+			}
 			if _, err := engine.NewGeneratorFromFen(fen); err != nil {
 				continue
 			}
